@@ -18,12 +18,14 @@ mod ops_pok;
 mod ops_registry;
 mod ops_revoc;
 mod ops_total;
+mod ops_tree;
 mod ops_wire;
 mod util;
 
 fn dispatch(v: &Value) -> Value {
     let op = v["op"].as_str().unwrap_or("");
     match op {
+        "d_tree" => ops_tree::run(v),
         o if o.starts_with("d_codec") => ops_codec::run(o, v),
         o if o.starts_with("d_") => ops_data::run(o, v),
         "f_pok" | "f_sigv" => ops_pok::run(op, v),
